@@ -140,7 +140,7 @@ static uint16_t
 ch_event(size_t ch) {
 	switch (gb_case->kind[ch]) {
 	case 1: return (TP_EV_READ);
-	case 2: return (TP_EV_WRITE);
+	case 2: case 4: return (TP_EV_WRITE);
 	default: return (TP_EV_TIMER);
 	}
 }
@@ -232,6 +232,15 @@ c06b_run(const c06b_case *c, c06b_out *out) {
 				out->setup_rc = errno;
 				return;
 			}
+			gb_ud[ch].ident = (uintptr_t)gb_sp[ch][0];
+		} else if (4 == c->kind[ch]) {
+			int p[2];
+			if (0 != pipe2(p, O_NONBLOCK)) {
+				out->setup_rc = errno;
+				return;
+			}
+			gb_sp[ch][0] = p[1]; /* registered: the write end */
+			gb_sp[ch][1] = p[0]; /* "peer": the read end */
 			gb_ud[ch].ident = (uintptr_t)gb_sp[ch][0];
 		} else {
 			gb_ud[ch].ident = (uintptr_t)&gb_ud[ch];
